@@ -126,10 +126,10 @@ class Lock:
         ensure_dirs()
         self.m = None
         try:
-            if not _ancestor_is_flock():
+            if REPO == "/repo" and not _ancestor_is_flock():
                 # writer preference: while some session is waiting for (or holding) the exclusive lock, do not
                 # join the readers - flock itself would let a stream of readers starve the writer
-                for _ in range(1800):
+                for _ in range(150):  # at most 5 minutes of deference to a waiting writer
                     if not _some_writer_exists():
                         break
                     time.sleep(2)
@@ -200,13 +200,26 @@ def parse_depfile(path):
     return sorted(set(x for x in rest.split() if x))
 
 
+def _norm(p):
+    """Paths under the repository root are recorded root-relative so that a scratch worktree of the
+    repository (VERIF_REPO=...) shares the build cache with /repo."""
+    if p.startswith(REPO + "/"):
+        return "$REPO/" + p[len(REPO) + 1:]
+    return p
+
+
+def _denorm(p):
+    return REPO + p[5:] if p.startswith("$REPO/") else p
+
+
 def deps_key(deps, flags):
     h = hashlib.sha256()
-    h.update(json.dumps(flags).encode())
+    h.update(json.dumps([_norm(f) for f in flags]).encode())
     for d in deps:
+        d = _denorm(d)
         if d.startswith("/usr/") or d.startswith(SITE):
             continue  # system / installed third-party headers: fixed in the sealed sandbox
-        h.update(d.encode())
+        h.update(_norm(d).encode())
         h.update(file_hash(d).encode())
     return h.hexdigest()
 
@@ -256,12 +269,12 @@ def compile_one(src_abs, key_name, flags, inc, index, kind="bc", force_src_text=
         ok = p.returncode == 0 and os.path.exists(out)
         if os.path.exists(dep):
             deps = parse_depfile(dep)
-            deps = [src_abs if d == real_src else d for d in deps]
+            deps = [_norm(src_abs if d == real_src else d) for d in deps]
         else:
             deps = None
         if deps is None or not ok:
             # failed compile: depend on every repo header + the TU so any edit retries
-            deps = [src_abs] + all_repo_headers()
+            deps = [_norm(src_abs)] + [_norm(x) for x in all_repo_headers()]
         k = deps_key(deps, flags + inc)
         res = dict(ok=ok, cached=False, key=k, name=key_name, compat=compat)
         if ok:
